@@ -232,12 +232,39 @@ pub fn build<G: GraphLike>(a: &Value) -> G {
             }
         }
     }
-    for e in a["e"].as_array().unwrap() {
-        g.add_edge_with_type(
-            e["u"].as_u64().unwrap() as usize,
-            e["w"].as_u64().unwrap() as usize,
-            et_from(e["t"].as_str().unwrap()),
-        );
+    // The abstract diagram lists its edges sorted; inserting them in that order would give every built graph the same
+    // adjacency ORDER (a gadget's leaf always last in its hub's list, ...), and code that takes "the first neighbour with ..."
+    // would only ever be seen in one of its cases (seed C04_f). Every second diagram (decided by a hash of its content, so that
+    // both backends and every run agree) therefore gets its edges inserted in a scrambled order, sometimes with the endpoints
+    // exchanged. Nothing observable through abs() depends on it.
+    let es = a["e"].as_array().unwrap();
+    let mut order: Vec<usize> = (0..es.len()).collect();
+    let mut hsh = {
+        use std::hash::{Hash, Hasher};
+        let mut h = std::collections::hash_map::DefaultHasher::new();
+        a["e"].to_string().hash(&mut h);
+        a["v"].to_string().hash(&mut h);
+        h.finish() | 1
+    };
+    let scramble = (hsh >> 7) & 1 == 1;
+    let mut next = || {
+        hsh ^= hsh << 13;
+        hsh ^= hsh >> 7;
+        hsh ^= hsh << 17;
+        hsh
+    };
+    if scramble {
+        for i in (1..order.len()).rev() {
+            order.swap(i, (next() % (i as u64 + 1)) as usize);
+        }
+    }
+    for &i in &order {
+        let e = &es[i];
+        let (mut u, mut w) = (e["u"].as_u64().unwrap() as usize, e["w"].as_u64().unwrap() as usize);
+        if scramble && next() & 1 == 1 {
+            std::mem::swap(&mut u, &mut w);
+        }
+        g.add_edge_with_type(u, w, et_from(e["t"].as_str().unwrap()));
     }
     g.set_inputs(a["ins"].as_array().unwrap().iter().map(|x| x.as_u64().unwrap() as usize).collect());
     g.set_outputs(a["outs"].as_array().unwrap().iter().map(|x| x.as_u64().unwrap() as usize).collect());
